@@ -269,7 +269,60 @@ impl<'a> Emit<'a> {
                     }
                     (kr, 0)
                 }
-                _ => panic!("emit: unsupported function {}", f),
+                "asin" => {
+                    // theta = asin u: sin(theta) = u, cos(theta) >= 0, -PI/2 <= theta <= PI/2
+                    let (an, ad) = self.tm(args[0]);
+                    let th = self.declare("phi");
+                    self.memo.insert(id, (th.clone(), 0));
+                    let k = self.trigpair(id);
+                    self.ax.push(format!("(= (* sn.{} {}) {})", k, self.dn(ad), an));
+                    self.ax.push(format!("(>= cs.{} 0.0)", k));
+                    self.need_pi();
+                    self.ax.push(format!("(and (>= (* 2.0 {}) (- PI)) (<= (* 2.0 {}) PI))", th, th));
+                    self.ax.push(format!("(= (>= sn.{} 0.0) (>= {} 0.0))", k, th));
+                    (th, 0)
+                }
+                "atan" => {
+                    // theta = atan u: sin(theta) = u cos(theta), cos(theta) > 0, -PI/2 < theta < PI/2
+                    let (an, ad) = self.tm(args[0]);
+                    let th = self.declare("phi");
+                    self.memo.insert(id, (th.clone(), 0));
+                    let k = self.trigpair(id);
+                    self.ax.push(format!("(= (* sn.{} {}) (* {} cs.{}))", k, self.dn(ad), an, k));
+                    self.ax.push(format!("(> cs.{} 0.0)", k));
+                    self.need_pi();
+                    self.ax.push(format!("(and (> (* 2.0 {}) (- PI)) (< (* 2.0 {}) PI))", th, th));
+                    self.ax.push(format!("(= (>= sn.{} 0.0) (>= {} 0.0))", k, th));
+                    (th, 0)
+                }
+                "atan2" => {
+                    // theta = atan2(y, x): r cos(theta) = x, r sin(theta) = y for some r >= 0, -PI < theta <= PI
+                    let (yn, yd) = self.tm(args[0]);
+                    let (xn, xd) = self.tm(args[1]);
+                    let th = self.declare("phi");
+                    self.memo.insert(id, (th.clone(), 0));
+                    let k = self.trigpair(id);
+                    let r = self.declare("r");
+                    self.ax.push(format!("(>= {} 0.0)", r));
+                    self.ax.push(format!("(= (* {} cs.{} {}) {})", r, k, self.dn(xd), xn));
+                    self.ax.push(format!("(= (* {} sn.{} {}) {})", r, k, self.dn(yd), yn));
+                    self.need_pi();
+                    self.ax.push(format!("(and (> {} (- PI)) (<= {} PI))", th, th));
+                    self.ax.push(format!("(=> (> sn.{} 0.0) (> {} 0.0))", k, th));
+                    self.ax.push(format!("(=> (< sn.{} 0.0) (< {} 0.0))", k, th));
+                    (th, 0)
+                }
+                _ => {
+                    // any other real function (exp, ln, powf, cbrt, sinh, ...): an uninterpreted value per distinct
+                    // application (hash-consing gives syntactic congruence). No axioms: `unsat` stays valid, and a goal
+                    // that needs a fact about the function comes back sat/unknown and is settled by the native replay.
+                    for a in args.iter() {
+                        let _ = self.tm(*a);
+                    }
+                    let v = self.declare("uf");
+                    self.nonlinear = true;
+                    (v, 0)
+                }
             },
             Node::IDiv(..) | Node::IRem(..) => panic!("emit: integer node in real emitter"),
         };
